@@ -1,7 +1,7 @@
 #!/usr/bin/env python3
 """T4 — iteration-order sites (C30).
 
-Scans compiler.py, idtracking.py, meta.py, nodes.py of $VERIF_REPO/src/jinja2 with `ast` for
+Scans compiler.py, idtracking.py, meta.py, nodes.py, ext.py, optimizer.py, parser.py, visitor.py of $VERIF_REPO/src/jinja2 with `ast` for
 every place where the ORDER of a set can leak: `for ... in e`, comprehensions / generator
 expressions over e, `next(iter(e))`, `sep.join(e)`, `list(e)`, `tuple(e)`, `enumerate(e)`,
 `map(f, e)`, `zip(.., e, ..)`, starred `*e`, `seq += e`, `seq.extend(e)`, `seq + e`, where e is set-typed by a local inference:
@@ -23,7 +23,8 @@ import ast
 import os
 import sys
 
-FILES = ["compiler.py", "idtracking.py", "meta.py", "nodes.py"]
+# everything that produces or rewrites the AST the code generator prints, and the generator itself
+FILES = ["compiler.py", "idtracking.py", "meta.py", "nodes.py", "ext.py", "optimizer.py", "parser.py", "visitor.py"]
 HINTS = {"stores", "undeclared", "undeclared_identifiers", "vars"}
 SET_METHODS = {"union", "intersection", "difference", "symmetric_difference", "copy"}
 ORDER_FUNCS = {"list", "tuple", "enumerate", "iter", "map", "zip", "reversed"}
